@@ -114,7 +114,17 @@ type Lemma struct {
 	Line  int
 }
 
+// Structural is a purely syntactic obligation over the loaded program (e.g. "function F has no callers").
+type Structural struct {
+	Kind   string
+	Target string
+	Pkg    string
+	Props  []string
+	Why    string
+}
+
 type Contracts struct {
+	Structurals []*Structural
 	Funcs   map[string]*FuncContract // by key as written (pkg-qualified)
 	Order   []*FuncContract
 	Preds   map[string]*PredDef
@@ -130,7 +140,7 @@ var clauseKeywords = map[string]bool{
 	"nooverflow": true, "trusted": true, "loop": true, "invariant": true, "decreases": true,
 	"results": true, "pred": true, "spec": true, "axiom": true, "lemma": true, "vars": true,
 	"call": true, "assume": true, "assert": true, "maypanic": true, "checknil": true, "pure": true,
-	"opaque": true, "noinline": true, "harness": true, "hide": true, "iter": true, "assumes": true, "bounded": true, "note": true, "at": true, "before": true, "after": true,
+	"opaque": true, "noinline": true, "harness": true, "hide": true, "iter": true, "assumes": true, "structural": true, "bounded": true, "note": true, "at": true, "before": true, "after": true,
 }
 
 // rewriteImplies turns "a ==> b" into "implies(a, b)" at every parenthesis level (right associative,
@@ -402,6 +412,7 @@ func (C *Contracts) parseFile(path, pkgPath string) error {
 	var curLemma *Lemma
 	var curCall *CallSpec
 	var curAxiom *Axiom
+	var curStruct *Structural
 	mk := func(text string, line int) (*Clause, error) {
 		label := ""
 		text = strings.TrimSpace(text)
@@ -426,6 +437,7 @@ func (C *Contracts) parseFile(path, pkgPath string) error {
 		switch kw {
 		case "func":
 			name := rest
+			curStruct = nil
 			curF = &FuncContract{Pkg: pkgPath, Name: name, Loops: map[int]*LoopSpec{}, Iters: map[int]*LoopSpec{}, File: path, Line: l.line}
 			key := name
 			if !strings.Contains(name, "/") && !isExternalName(name) {
@@ -441,6 +453,8 @@ func (C *Contracts) parseFile(path, pkgPath string) error {
 		case "property":
 			ps := strings.FieldsFunc(rest, func(r rune) bool { return r == ',' || r == ' ' })
 			switch {
+			case curStruct != nil:
+				curStruct.Props = append(curStruct.Props, ps...)
 			case curLemma != nil:
 				curLemma.Props = append(curLemma.Props, ps...)
 			case curAxiom != nil:
@@ -609,7 +623,21 @@ func (C *Contracts) parseFile(path, pkgPath string) error {
 			curAxiom = &Axiom{Name: strings.TrimSpace(rest[:ci]), Body: c, Pkg: pkgPath}
 			C.Axioms = append(C.Axioms, curAxiom)
 			curF, curLoop, curLemma = nil, nil, nil
+		case "structural":
+			// structural nocallers <func> : <why>
+			f := strings.Fields(rest)
+			if len(f) < 2 {
+				return fmt.Errorf("%s:%d: structural needs a kind and a target", path, l.line)
+			}
+			why := ""
+			if i := strings.Index(rest, ":"); i >= 0 {
+				why = strings.TrimSpace(rest[i+1:])
+			}
+			curStruct = &Structural{Kind: f[0], Target: strings.TrimSuffix(f[1], ":"), Pkg: pkgPath, Why: why}
+			C.Structurals = append(C.Structurals, curStruct)
+			curF, curLoop, curLemma, curAxiom = nil, nil, nil, nil
 		case "lemma":
+			curStruct = nil
 			curCall = nil
 			curLemma = &Lemma{Name: rest, Pkg: pkgPath, File: path, Line: l.line}
 			C.Lemmas = append(C.Lemmas, curLemma)
@@ -689,6 +717,10 @@ func exprText(e ast.Expr) string {
 		return "(" + exprText(e.X) + ")"
 	case *ast.StarExpr:
 		return "*" + exprText(e.X)
+	case *ast.ArrayType:
+		if e.Len == nil {
+			return "[]" + exprText(e.Elt)
+		}
 	}
 	return fmt.Sprintf("%T", e)
 }
